@@ -128,6 +128,9 @@ class Repo:
         return None
 
     def mro(self, cname):
+        cache = self.__dict__.setdefault('_mro_cache', {})
+        if cname in cache:
+            return list(cache[cname])
         out = []
 
         def go(c):
@@ -139,6 +142,7 @@ class Repo:
                 if bb:
                     go(bb)
         go(cname)
+        cache[cname] = tuple(out)
         return out
 
     def family(self, cname):
